@@ -504,6 +504,9 @@ def r_window_mirror(rep, hc):
             out.add((op, q))
         for node, branch, cv in te.get("pc", []):
             walk(cv, branch == "then")
+        # tests decided earlier on the path whose other branch left (`if !reached { break }`) hold here as well
+        for cv, tr_ in te.get("facts", []) or []:
+            walk(cv, bool(tr_))
         return out
 
     def reflect(cs):
@@ -619,7 +622,14 @@ def r_nextidx_mono(rep, hc):
     for w in writes:
         r = w["r"]
         if w["k"] == "AssignOp":
-            if not (w["op"].startswith("Add") and mon.is_lit_int(r) is not None):
+            ok_ = w["op"].startswith("Add") and mon.is_lit_int(r) is not None
+            if not ok_ and w["op"].startswith("Add") and r.get("k") == "Path" and r.get("res") == "local":
+                # `next_idx += consumed` with a counter that starts at 0 and is only ever incremented by 1
+                lets = tast.find(body, lambda x: x.get("k") == "Let" and x["pat"].get("id") == r["id"])
+                ups = tast.find(body, lambda x: x.get("k") in ("Assign", "AssignOp") and x["l"].get("k") == "Path" and x["l"].get("id") == r["id"])
+                ok_ = len(lets) == 1 and lets[0].get("init") is not None and mon.is_lit_int(lets[0]["init"]) == 0 \
+                    and all(a["k"] == "AssignOp" and a["op"].startswith("Add") and mon.is_lit_int(a["r"]) == 1 for a in ups)
+            if not ok_:
                 probs.append("next_idx updated by %s" % tast.render(w))
             continue
         if not (r.get("k") == "Path" and r.get("res") == "local"):
@@ -1442,6 +1452,27 @@ def time_types(hc):
         if k == "Tuple":
             return S
         return S
+    # elements met while iterating over the requested times are time points: loop patterns and the parameters of closures
+    # handed to iterator adaptors (`t_eval.iter().skip(k).take_while(|&&t| ..)`, also through a local holding the iterator)
+    def over_teval(e, depth=0):
+        if e is None or depth > 6:
+            return False
+        if tast.contains(e, lambda w: (w.get("k") == "Path" and "t_eval" in (w.get("name") or "")) or hc.field_is(w, "t_eval")):
+            return True
+        for q in tast.find(e, lambda w: w.get("k") == "Path" and w.get("res") == "local" and "iter" in (w.get("ty") or "").lower()):
+            for l_ in tast.find(body, lambda z: z.get("k") == "Let" and z["pat"].get("k") == "PBind" and z["pat"].get("id") == q.get("id") and z.get("init") is not None):
+                if over_teval(l_["init"], depth + 1):
+                    return True
+        return False
+    for lp in tast.find(body, lambda z: z.get("k") == "For"):
+        if over_teval(lp["iter"]):
+            for q in tast.find(lp["pat"], lambda q: q.get("k") == "PBind" and (q.get("ty") or "").lstrip("&") == "f64"):
+                env[q["id"]] = P
+    for mc in tast.find(body, lambda z: z.get("k") == "MethodCall" and z.get("name") in ("take_while", "skip_while", "filter", "find", "position", "any", "all", "map", "for_each") and z["args"] and z["args"][0].get("k") == "Closure"):
+        if over_teval(mc["recv"]):
+            for p_ in mc["args"][0].get("params") or []:
+                for q in tast.find(p_, lambda q: q.get("k") == "PBind" and (q.get("ty") or "").lstrip("&") == "f64"):
+                    env[q["id"]] = P
     lets = tast.find(body, lambda z: z.get("k") == "Let" and z["pat"].get("k") == "PBind" and z.get("init") is not None and (z["pat"].get("ty") or "") == "f64")
     asgs = tast.find(body, lambda z: z.get("k") in ("Assign", "AssignOp") and z["l"].get("k") == "Path" and (z["l"].get("ty") or "") == "f64")
     rank = {S: 0, D: 1, P: 2}
@@ -1472,6 +1503,10 @@ def time_types(hc):
                 changed = True
         if not changed:
             break
+    # a local whose initialiser is a plain scalar (a copy of the tolerance field, a literal) has an established role too
+    for l in lets:
+        if l["pat"]["id"] not in env and not tast.contains(l["init"], lambda z: z.get("k") in ("Call", "MethodCall") and z.get("name") not in ("abs", "min", "max", "clamp", "copysign")):
+            env[l["pat"]["id"]] = ty(l["init"])
     return env, ty
 
 
